@@ -3,7 +3,7 @@ CONSTANTS
   NUri = 1
   NText = 2
   MaxHist = 3
-  Kinds = {"open", "change0", "change1", "change2", "open_nf", "semtok", "unkreq", "unknotif", "cresp", "shutdown", "early"}
+  Kinds = {"open", "change0", "change1", "change2", "open_nf", "semtok", "unkreq", "unknotif", "cresp", "close", "badreq", "badnotif", "shutdown", "early"}
   Emit = FALSE
   Deviations = {}
 INVARIANTS CacheCoherent DocsFollowProtocol AnswerExactlyOnce NoPendingAtRest Survives
